@@ -969,6 +969,11 @@ def _analyze_zipfile_for_import(zipfile, project, schema):
     else:
         raise TypeError("The schema variable must be None, callable, or a string.")
 
+    def is_below(name, parent):
+        """Check whether the archive member name lies in or below the directory parent."""
+        # Must use forward slashes, not os.path.sep.
+        return parent == "" or name == parent or name.startswith(parent + "/")
+
     mappings = {}
     skip_subdirs = set()
 
@@ -976,7 +981,7 @@ def _analyze_zipfile_for_import(zipfile, project, schema):
     for name in sorted(dirs):
         cont = False
         for skip in skip_subdirs:
-            if name.startswith(skip):
+            if is_below(name, skip):
                 cont = True
                 break
         if cont:
@@ -997,7 +1002,7 @@ def _analyze_zipfile_for_import(zipfile, project, schema):
         )
 
     for src, job in mappings.items():
-        _names = [name for name in names if name.startswith(src)]
+        _names = [name for name in names if name != src and is_below(name, src)]
         copy_executor = _CopyFromZipFileExecutor(zipfile, src, job, _names)
         yield src, copy_executor
 
